@@ -66,7 +66,7 @@ SPECIES = {
 # workflow histories on ONE Manager (system S1 S2 W S1 U): attach through add_end_molecule, attach / detach through
 # the documented molecule_correspondence[name].end attribute, compute maps, extrapolate
 HIST_SEQ = ['S1', 'S2', 'W', 'S1', 'U']
-HIST_EVENTS = ('extr', 'calc', 'add:S1', 'add:S2', 'set:S1', 'set:S2', 'det:S1', 'det:S2', 'frame', 'cmp')
+HIST_EVENTS = ('extr', 'calc', 'add:S1', 'add:S2', 'set:S1', 'set:S2', 'det:S1', 'det:S2', 'frame', 'cmp', 'init:S1')
 END_RESID_OFFSET = 76             # residue numbers carried by the end-resolution files
 
 BOX = {'rect': np.array([7.25, 6.5, 8.125]),
@@ -207,8 +207,8 @@ class C05(Check):
             'are enumerated: an end molecule can only be attached to a species present in the system, the scale '
             'is irrelevant when no map is computed, the subset is irrelevant when nothing is attached. '
             'non-trivial = a file with at least one mapped molecule was written and compared, or the '
-            'failure mode raised. Workflow histories: every sequence of a fixed length over 10 events (attach via '
-            'add_end_molecule / via the .end attribute, detach, compute maps, hand the manager another frame of the system, write the comparison file of the attached species, extrapolate) ending in extrapolate, on one '
+            'failure mode raised. Workflow histories: every sequence of a fixed length over 11 events (attach via '
+            'add_end_molecule / via the .end attribute, detach, compute maps, hand the manager another frame of the system, write the comparison file of the attached species, give one species its own map through its alignment, extrapolate) ending in extrapolate, on one '
             'Manager, with a 2-bit-per-species model deciding what each extrapolate must write')
     technique = ('exhaustive enumeration of system compositions x attachment subsets x box x scale x '
                  'pre-flight failure modes on the real Manager; output re-read by an independent '
@@ -217,7 +217,7 @@ class C05(Check):
     level_text = ('every sequence of 1..3 (quick) / 1..5 (thorough) molecules over 6 species (3-atom, 2-residue, '
                   '2-atom and 1-atom references, an unmapped loaded species, solvent), every attachment subset, '
                   '4 boxes (rectangular, triclinic, hexagonal with a negative component and a non-ASCII title, lattice vectors in a general orientation), system built by the constructor or step by step in reverse order, 2 scales and 3 failure modes are executed on the real code; plus every workflow history of '
-                  'length 5 (quick) / 6 (thorough) over 10 manager events; a coverage statement over that finite space')
+                  'length 5 (quick) / 6 (thorough) over 11 manager events; a coverage statement over that finite space')
     level_note = ('trusted: the text builders and the 30-line reader in this module, numpy; alignment is not run '
                   '(the maps are built from the placed coordinates); velocities and non-default coordinate '
                   'precision are not covered. KNOWN LIMITATION (outside the premise, informational only): when the two '
@@ -471,6 +471,12 @@ class C05(Check):
                     elif op == 'calc':
                         man.calculate_exchange_maps(scale_factor=0.5)
                         mapped |= attached
+                    elif op == 'init':
+                        # one species is given its OWN scale factor through its alignment (the documented way): from
+                        # then on its map is the one just built, whatever the manager computed before
+                        if sp in attached:
+                            man.molecule_correspondence[sp].init_exchange_map(0.9)
+                            mapped.add(sp)
                     elif op == 'cmp':
                         # the documented inspection aid: the two resolutions of every attached species written side by
                         # side to a scratch file (touches nothing the manager uses later)
